@@ -490,7 +490,7 @@ func normKey(k string) string {
 }
 
 var labelRe = regexp.MustCompile(`^\[([A-Za-z0-9_\-.,=> ]+)\]\s*`)
-var funcHdrRe = regexp.MustCompile(`^func\s+(?:\(\s*(?:([A-Za-z_]\w*)\s+)?(\*?)([^)\s]+)\s*\)\s*)?([A-Za-z_][\w./\-]*)\s*(?:\(([^)]*)\))?\s*$`)
+var funcHdrRe = regexp.MustCompile(`^func\s+(?:\(\s*(?:([A-Za-z_]\w*)\s+)?(\*?)([^)\s]+)\s*\)\s*)?([A-Za-z_][\w./\-$]*)\s*(?:\(([^)]*)\))?\s*$`)
 
 // ParseContracts parses the //@ lines (or raw lines when raw is true) of a file.
 // pkgPath qualifies unqualified names ("" for spec files, where names must be qualified).
